@@ -191,6 +191,50 @@ fn run19_inner(op: &str, a: &[Arg]) -> String {
                 Val::B(x) => obs(&Val::B(x.substitute(&m.into_iter().filter_map(|(k, v)| match v { Val::B(e) => Some((k, e)), _ => None }).collect()))),
             }
         }
+        // observations on an object that is the *result* of an operation (never re-decoded from text):
+        // the wrapper must hand the derived object on unchanged
+        "after.restrict" | "after.exists" | "after.forall" | "after.deriv" | "after.not" => {
+            let x = f(&a[0]);
+            let r: Val = match (&x, op) {
+                (Val::E(x), "after.restrict") => Val::E(x.restrict(&pv(1))),
+                (Val::T(x), "after.restrict") => Val::T(x.restrict(&pv(1))),
+                (Val::B(x), "after.restrict") => Val::B(x.restrict(&pv(1))),
+                (Val::E(x), "after.exists") => Val::E(x.existential_quantification(st(1))),
+                (Val::T(x), "after.exists") => Val::T(x.existential_quantification(st(1))),
+                (Val::B(x), "after.exists") => Val::B(x.existential_quantification(st(1))),
+                (Val::E(x), "after.forall") => Val::E(x.universal_quantification(st(1))),
+                (Val::T(x), "after.forall") => Val::T(x.universal_quantification(st(1))),
+                (Val::B(x), "after.forall") => Val::B(x.universal_quantification(st(1))),
+                (Val::E(x), "after.deriv") => Val::E(x.derivative(st(1))),
+                (Val::T(x), "after.deriv") => Val::T(x.derivative(st(1))),
+                (Val::B(x), "after.deriv") => Val::B(x.derivative(st(1))),
+                (Val::E(x), _) => Val::E(Expression::negate(x)),
+                (Val::T(x), _) => Val::T(!x),
+                (Val::B(x), _) => Val::B(!x),
+            };
+            // the same function built another way
+            let rb: Val = match &r {
+                Val::E(e) => Val::E(TruthTable::from(e).to_expression_trivial()),
+                Val::T(t) => Val::T(TruthTable::from(&t.to_expression_trivial())),
+                Val::B(b) => Val::B(Bdd::try_from(Expression::from(b.clone())).expect("HARNESS: rebuild")),
+            };
+            let cmp = |p: &Val, q: &Val| -> String {
+                match (p, q) {
+                    (Val::E(p), Val::E(q)) => format!("{},{}", p.is_equivalent(q), p.is_implied_by(q)),
+                    (Val::T(p), Val::T(q)) => format!("{},{}", p.is_equivalent(q), p.is_implied_by(q)),
+                    (Val::B(p), Val::B(q)) => format!("{},{}", p.is_equivalent(q), p.is_implied_by(q)),
+                    _ => panic!("HARNESS"),
+                }
+            };
+            let small = each!(&r, y => y.degree()) <= 5;
+            format!(
+                "inputs={} ess={} enum={} rebuilt={};{} self={} orig={};{}",
+                each!(&r, y => set(y.inputs())),
+                each!(&r, y => set(y.essential_inputs())),
+                if small { each!(&r, y => enum_text(y)) } else { "-".to_string() },
+                cmp(&r, &rb), cmp(&rb, &r), cmp(&r, &r), cmp(&r, &x), cmp(&x, &r)
+            )
+        }
         "conv.ET" => match f(&a[0]) { Val::E(e) => obs(&Val::T(TruthTable::from(&e))), _ => panic!("HARNESS") },
         "conv.TE" => match f(&a[0]) { Val::T(t) => obs(&Val::E(t.to_expression_trivial())), _ => panic!("HARNESS") },
         // conversion of a conjunction of n distinct variables: only the outcome kind is compared
